@@ -1,3 +1,6 @@
 import PydapModel.Generated.Tables
 import PydapModel.Sexp
 import PydapModel.Slice
+import PydapModel.Xdr
+import PydapModel.XdrSpec
+import PydapModel.XdrTypes
